@@ -35,7 +35,7 @@ def _coqproject_text():
     return ("-Q theories QV\n-arg -w -arg " + COQ_WARN + "\n" + "\n".join(files) + "\n")
 
 
-def ensure_static_build(targets=None):
+def ensure_static_build(targets=None, keep_going=False):
     """(re)build the static Coq development (or only the given theories, e.g. ["Base/TrigMat"])
     if any .vo is missing or stale.  Serialised by a file lock so concurrent checks do not race."""
     import fcntl
@@ -51,9 +51,10 @@ def ensure_static_build(targets=None):
             if rc:
                 raise RuntimeError("coq_makefile failed:\n" + out)
         tg = " ".join(f"theories/{t}.vo" for t in targets) if targets else ""
-        rc, out = sh(f"timeout 3000 make -j16 {tg}", cwd=COQ, timeout=3100)
-        if rc:
+        rc, out = sh(f"timeout 3000 make {'-k ' if keep_going else ''}-j16 {tg}", cwd=COQ, timeout=3100)
+        if rc and not keep_going:
             raise RuntimeError("static Coq build failed:\n" + out[-4000:])
+        return rc, out
 
 
 def coqc(path, timeout=600, extra_q=()):
